@@ -266,6 +266,16 @@ func (ci *concr) globalCell(g *ssa.Global) *ccell {
 	return c
 }
 
+// concrFollowStd: an instance of a generic function of package slices (IndexFunc, Contains, …): pure code over its
+// arguments whose body the SSA program has, followed like a function of the module.
+func concrFollowStd(fn *ssa.Function) bool {
+	o := fn
+	if fn.Origin() != nil {
+		o = fn.Origin()
+	}
+	return o.Pkg != nil && o.Pkg.Pkg.Path() == "slices" && fn.Blocks != nil
+}
+
 func intOf(v cval) (int, bool) {
 	if v.kind != cConst || v.c.Kind() != constant.Int {
 		return 0, false
@@ -657,7 +667,7 @@ func (ci *concr) runB(fn *ssa.Function, args []cval, bindings []cval, depth int)
 						return concrOutcome{status: "unknown", why: "call of a supplied function value that has no answer at " + ci.w.pos(x.Pos())}
 					}
 				}
-				if callee != nil && callee.Blocks != nil && corePkg(fnPkgPath(callee)) && !x.Call.IsInvoke() {
+				if callee != nil && callee.Blocks != nil && (corePkg(fnPkgPath(callee)) || concrFollowStd(callee)) && !x.Call.IsInvoke() {
 					var as []cval
 					for _, a := range x.Call.Args {
 						as = append(as, get(a))
